@@ -20,7 +20,7 @@ RULE = ("seeded citation-dense documents (grammar fragments incl. nominative-rep
 ASSUMPTIONS = ["CPython str/len semantics", "monitors observe only executions this workload produced"]
 FLOORS = {
     "quick": {"tokenize_calls": 3000, "overlap_skips": 300, "merges": 100, "nominative_drops": 50,
-              "loop_heads_checked": 3000},
+              "loop_heads_checked": 3000, "pattern_member_texts": 20000},
     "thorough": {"tokenize_calls": 100000, "overlap_skips": 5000, "merges": 2000,
                  "nominative_drops": 1000, "loop_heads_checked": 100000},
 }
@@ -161,6 +161,24 @@ def run_shard(spec, rec):
     hooks = install_loop_hook(rec)
     toks = {n: tok.get(n) for n in ("ac", "hs", "ref")}
     try:
+        # W1: members of every extractor pattern (branch coverage, sharded), embedded between ordinary words
+        from eyecite.tokenizers import EXTRACTORS
+        from vmon.rxgen import cover
+        nsh = SHARDS.get(rec.tier, 8)
+        for idx, e in enumerate(EXTRACTORS):
+            if idx % nsh != spec["i"] % nsh:
+                continue
+            try:
+                pool = list(cover(e.regex, rng, e.flags, max_samples=4 if rec.tier == "quick" else 40))
+            except Exception:
+                continue
+            for m in pool:
+                if not e.compiled_regex.search(m):
+                    continue
+                text = rng.choice(["", "See ", "x  "]) + m + rng.choice(["", "  and more", ". Id. at 5", "\nnext"])
+                rec.count("pattern_member_texts")
+                for name in ("ac", "hs"):
+                    check_one(name, toks[name], text, rec)
         for k in range(spec["n"]):
             text = make_doc(rng, rec)
             for name in ("ac", "hs"):
